@@ -409,9 +409,16 @@ def initDst (a : Arch) (c : Ctx) (src dst : FuncValue) : Except String (Ctx × F
     | none => .error "InvalidState"
     | some rt => .ok ({ c with stackDstMask := c.stackDstMask ||| (1 <<< groupOf rt) }, dst, 15, 255)
 
-/-- `dst_id == src_id` case: done unless both are GP and the destination type is wider -/
+/-- `emit_arg_move` converts between single and double precision for these scalar types (fix C06-9 consults it) -/
+def needsFloatConv (dt st : Nat) : Bool :=
+  (scalarOf dt = tFloat32 && scalarOf st = tFloat64) || (scalarOf dt = tFloat64 && scalarOf st = tFloat32)
+
+/-- `dst_id == src_id` case: done unless both are GP and the destination type is wider, or (other groups, fix C06-9) the move
+    would be a float <-> double conversion -/
 def doneAtInit (src dst : FuncValue) (dg did : Nat) : Bool :=
-  did = src.regId && (dg ≠ 0 || (dst.typeId = 0 || src.typeId = 0 || tySize dst.typeId ≤ tySize src.typeId))
+  did = src.regId &&
+    (if dg ≠ 0 then !needsFloatConv dst.typeId src.typeId
+     else (dst.typeId = 0 || src.typeId = 0 || tySize dst.typeId ≤ tySize src.typeId))
 
 /-- source half (the variable is created here); `varId` = index of the variable being created -/
 def initSrc (c : Ctx) (reassign : Nat) (src dst : FuncValue) (dg did : Nat) : Except String (Ctx × Nat) :=
@@ -469,9 +476,12 @@ def initWorkData (a : Arch) (f : FrameIn) (argsSa : Nat) (vals : List (FuncValue
     let cur? : Option Nat :=
       if f.saReg ≠ 255 then some f.saReg
       else if argsSa ≠ 255 && !gp.isAssigned argsSa then some argsSa
-      else match gp.lowestAvailable with
+      else match gp.lowestAvailable (fun r => !bit gp.dstRegs r) with     -- fix C06-8: prefer a register that is no destination
         | some r => some r
-        | none => (List.range 32).find? fun r => bit gp.archRegs r && !bit gp.workRegs r
+        | none =>
+          match (List.range 32).find? fun r => bit gp.archRegs r && !bit gp.workRegs r with
+          | some r => some r
+          | none => gp.lowestAvailable
     match cur? with
     | none => .error "NoMorePhysRegs"
     | some cur =>
@@ -596,9 +606,9 @@ def shuffleVar (cfg : Cfg) (s : Emit × Flags) (varId : Nat) : Except (String ×
           | .ok e => .ok (e, { fl with didSome := true, pending := true })
     else .ok (e, { fl with pending := true })
 
-/-- the `for (;;)` of phase 2; `fuel` bounds the number of passes (an exhausted fuel is reported, never silently cut) -/
+/-- the `for (;;)` of phase 2; `fuel` = `max_pass_count` of fix C06-8 (`2 * var_count + 2` passes, then `kInvalidState`) -/
 def shuffleLoop (cfg : Cfg) (n : Nat) : Nat → Emit → Flags → Except (String × Emit) Emit
-  | 0, e, _ => .error ("FuelExhausted", e)
+  | 0, e, _ => .error ("InvalidState", e)
   | fuel + 1, e, fl =>
     match (List.range n).foldlM (shuffleVar cfg) (e, fl) with
     | .error x => .error x
@@ -643,7 +653,7 @@ def emitArgsAssignment (cfg : Cfg) (f : FrameIn) (argsSa : Nat) (vals : List (Fu
     match p1 with
     | .error (m, e) => (some m, e.out)
     | .ok e =>
-      match shuffleLoop cfg n (2 * n + 8) e {} with
+      match shuffleLoop cfg n (2 * n + 2) e {} with
       | .error (m, e) => (some m, e.out)
       | .ok e =>
         if !e.ctx.hasStackSrc then (none, e.out) else
